@@ -791,7 +791,9 @@ func (t *TBtree) GetOptions() *Options {
 		WithHistoryLogMaxOpenedFiles(t.historyLogMaxOpenedFiles).
 		WithCommitLogMaxOpenedFiles(t.commitLogMaxOpenedFiles).
 		WithAppFactory(t.appFactory).
-		WithAppRemoveFunc(t.appRemove)
+		WithAppRemoveFunc(t.appRemove).
+		WithMaxBufferedDataSize(t.maxBufferedDataSize).
+		WithOnFlushFunc(t.onFlush)
 }
 
 // nodeLoad holds the result of a single in-flight cache-miss load.
